@@ -46,12 +46,14 @@ def make_ast(spec, ndff, rng):
     outputs = sorted(A.outputs())
     dffs = []
     qs = []
-    cand = [i for i in inputs if i not in A.outputs()]
+    cand = list(inputs)
     rng.shuffle(cand)
     for q in cand[: min(ndff, max(0, len(inputs) - 1))]:
         qs.append(q)
     for q in qs:
         inputs.remove(q)
+        if q not in outputs and rng.random() < 0.4:
+            outputs.append(q)  # a flop's Q net that is itself a primary output
     for j, q in enumerate(qs):
         r = rng.random()
         if r < 0.3 and len(qs) > 1:
